@@ -1,7 +1,8 @@
 (** C20 — sleeping and timed waits respect their deadlines.
     Statements only; every proof is [exact] of a lemma of Time/TimeProofs.v. *)
 From Coq Require Import ZArith List.
-From MT Require Import Time.TimeModel Time.TimeProofs.
+From MT Require Import Time.TimeModel Time.TimeProofs Time.TimeLib.
+From MT Require Import Machine.MachineModel Machine.MachineProofs Machine.MachineMore.
 Import ListNotations.
 Local Open Scope Z_scope.
 
@@ -91,3 +92,156 @@ Example C20_timed_example :
   timedlock clk (att_of [false; false; false]) 10 (3, 0) = Ret ETIMEDOUT 3 2 /\
   timedlock clk (att_of [false; false; true]) 10 (3, 0) = Ret 0 2 1.
 Proof. vm_compute. split; reflexivity. Qed.
+
+(** * Library tier: all interleavings, and the worker in the meantime *)
+
+(** the models that also return the order of actions (what a controlled run of the real library logs) have the
+    outcome of [nanosleep] / [timed] *)
+Theorem C20_actions_outcome : forall clk att tocode fuel req abst,
+  fst (nanosleep_ev clk fuel req) = nanosleep clk fuel req /\
+  fst (timed_ev clk att tocode fuel abst) = timed clk att tocode fuel abst.
+Proof. exact (fun clk att tocode fuel req abst => conj (nanosleep_ev_outcome clk fuel req) (timed_ev_outcome clk att tocode fuel abst)). Qed.
+Print Assumptions C20_actions_outcome.
+
+(** a completed sleep that made r readings:  read 0; (read k; yield) for k = 1..r-2; read r-1.  The number of yields is
+    exactly readings - 2, and every yield lies between reading k and reading k+1 *)
+Theorem C20_sleep_yields_between_reads : forall clk fuel req r y,
+  nanosleep clk fuel req = Ret 0 r y ->
+  snd (nanosleep_ev clk fuel req) = sleep_shape r /\
+  n_yields (snd (nanosleep_ev clk fuel req)) = y /\ y = (r - 2)%nat /\ (2 <= r)%nat /\
+  yields_between_reads (snd (nanosleep_ev clk fuel req)).
+Proof.
+  exact (fun clk fuel req r y H =>
+    match nanosleep_ev_shape clk fuel req r y H with
+    | conj a (conj b (conj c d)) => conj a (conj b (conj c (conj d (nanosleep_yield_between clk fuel req r y H))))
+    end).
+Qed.
+Print Assumptions C20_sleep_yields_between_reads.
+
+(** a malformed request performs no action (no clock reading, no yield) *)
+Theorem C20_sleep_einval_no_action : forall clk fuel req r y,
+  nanosleep clk fuel req = Ret EINVAL r y -> snd (nanosleep_ev clk fuel req) = [].
+Proof. exact nanosleep_ev_einval. Qed.
+Print Assumptions C20_sleep_einval_no_action.
+
+(** a completed timed lock / join:  attempt 0; (read k; attempt k+1; yield) for k = 0..r-2; read r-1 [; attempt r] *)
+Theorem C20_timed_action_shape : forall clk att tocode fuel abst c r y, tocode <> 0 ->
+  timed clk att tocode fuel abst = Ret c r y ->
+  snd (timed_ev clk att tocode fuel abst) = timed_shape c r /\
+  n_yields (snd (timed_ev clk att tocode fuel abst)) = y /\ y = (r - 1)%nat.
+Proof. exact timed_ev_shape. Qed.
+Print Assumptions C20_timed_action_shape.
+
+(** the result depends only on the readings and the attempt outcomes that were actually observed *)
+Theorem C20_sleep_observed_only : forall clk clk' fuel req c r y,
+  nanosleep clk fuel req = Ret c r y -> (forall j, (j < r)%nat -> clk' j = clk j) ->
+  nanosleep clk' fuel req = Ret c r y.
+Proof. exact nanosleep_observed_only. Qed.
+Print Assumptions C20_sleep_observed_only.
+
+Theorem C20_timed_observed_only : forall clk att clk' att' tocode fuel abst c r y, tocode <> 0 ->
+  timed clk att tocode fuel abst = Ret c r y ->
+  (forall j, (j < r)%nat -> clk' j = clk j) ->
+  (forall i, (i < r)%nat \/ (c = 0 /\ i = r) -> att' i = att i) ->
+  timed clk' att' tocode fuel abst = Ret c r y.
+Proof. exact timed_observed_only. Qed.
+Print Assumptions C20_timed_observed_only.
+
+(** ALL interleavings with the holder / the target.  An environment is any type of states [E] of everything outside
+    the caller, any [free : E -> bool] (does an attempt succeed), any [clock : E -> ts], and any interference
+    [interf n : E -> E] of the other threads before the caller's n-th shared access (0 = attempt 0, 2k+1 = reading k,
+    2k+2 = attempt k+1; so [interf (2k+2)] acts between clock reading k and the following attempt).  The call executed
+    step by step inside the environment ([env_timed]) is [timed] on the readings and attempt outcomes seen there; and
+    every pair of scripts (clk, att) is seen in some environment.  Hence the theorems above, which quantify over all
+    [clk] and [att], are statements about all environments and only about them. *)
+Theorem C20_timed_any_environment :
+  (forall (E : Type) (free : E -> bool) (clock : E -> ts) (interf : nat -> E -> E) tocode fuel e0 abst,
+     env_timed E free clock interf tocode fuel e0 abst =
+     timed (clk_env E clock interf e0) (att_env E free interf e0) tocode fuel abst) /\
+  (forall (clk : nat -> ts) (att : nat -> bool),
+     exists (E : Type) (free : E -> bool) (clock : E -> ts) (interf : nat -> E -> E) (e0 : E),
+       (forall k, clk_env E clock interf e0 k = clk k) /\ (forall i, att_env E free interf e0 i = att i)).
+Proof. exact (conj env_timed_is_timed every_script_is_an_environment). Qed.
+Print Assumptions C20_timed_any_environment.
+
+(** the deadline statements in an arbitrary environment: a timeout only at a reading strictly past the deadline and
+    only if the resource was unavailable in the state of every attempt; success only in the first state in which an
+    attempt found it available *)
+Theorem C20_timed_env_timeout : forall E free clock interf tocode fuel e0 abst r y,
+  (forall e, valid (clock e)) -> tocode <> 0 -> valid abst ->
+  env_timed E free clock interf tocode fuel e0 abst = Ret tocode r y ->
+  (1 <= r)%nat /\ to_ns (clk_env E clock interf e0 (r - 1)%nat) > to_ns abst /\
+  (forall i, (i < r)%nat -> free (seen E interf e0 i) = false).
+Proof. exact env_timed_timeout. Qed.
+Print Assumptions C20_timed_env_timeout.
+
+Theorem C20_timed_env_success : forall E free clock interf tocode fuel e0 abst r y, tocode <> 0 ->
+  env_timed E free clock interf tocode fuel e0 abst = Ret 0 r y ->
+  free (seen E interf e0 r) = true /\ (forall i, (i < r)%nat -> free (seen E interf e0 i) = false).
+Proof. exact env_timed_success. Qed.
+Print Assumptions C20_timed_env_success.
+
+(** "let other runnable threads use the worker in the meantime", on the scheduler-level machine of coq/Machine
+    (theorem [M_yield_gives_way]): a completed sleep with r readings went through the polling iterations
+    read j; yield  for j = 1 .. r-2; in each of them, if the sleeper t runs on worker w whose run queue is q ++ [x],
+    the iteration leaves x running on w and t at the base of the queue, behind everything that was queued *)
+Theorem C20_sleeper_gives_way : forall clk fuel req r y j,
+  nanosleep clk fuel req = Ret 0 r y -> (1 <= j < r - 1)%nat ->
+  (exists l1 l2, snd (nanosleep_ev clk fuel req) = l1 ++ PRead j :: PYield :: l2) /\
+  forall s w t q x, Inv s ->
+    nth_error (cur s) w = Some (Run t) -> nth_error (hand s) w = Some None -> nth_error (dq s) w = Some (q ++ [x]) ->
+    runo s (poll_moves w [PRead j; PYield]) =
+      Some {| cur := upd (cur s) w (Run x); hand := hand s; dq := upd (dq s) w (t :: q); stat := stat s |}.
+Proof. exact sleeper_gives_way. Qed.
+Print Assumptions C20_sleeper_gives_way.
+
+(** the same for one polling iteration of a timed lock / join (read; failed attempt; yield) *)
+Theorem C20_poller_gives_way : forall s w t q x k i, Inv s ->
+  nth_error (cur s) w = Some (Run t) -> nth_error (hand s) w = Some None -> nth_error (dq s) w = Some (q ++ [x]) ->
+  let s' := {| cur := upd (cur s) w (Run x); hand := hand s; dq := upd (dq s) w (t :: q); stat := stat s |} in
+  runo s (poll_moves w [PRead k; PYield]) = Some s' /\
+  runo s (poll_moves w [PRead k; PAttempt i; PYield]) = Some s'.
+Proof. exact poll_iteration_gives_way. Qed.
+Print Assumptions C20_poller_gives_way.
+
+(** the yield of a sleep uses option half_half and may steal first: then the stolen thread runs on w and the
+    sleeper goes to the base of its own queue all the same *)
+Theorem C20_sleeper_gives_way_steal : forall s w v t q x r, Inv s -> v <> w ->
+  nth_error (cur s) w = Some (Run t) -> nth_error (hand s) w = Some None ->
+  nth_error (dq s) w = Some q -> nth_error (dq s) v = Some (x :: r) ->
+  runo s (yield_steal_moves w v) =
+    Some {| cur := upd (cur s) w (Run x); hand := hand s; dq := upd (upd (dq s) v r) w (t :: q); stat := stat s |}.
+Proof. exact poll_iteration_gives_way_steal. Qed.
+Print Assumptions C20_sleeper_gives_way_steal.
+
+(** non-vacuity.  An environment in which the holder releases the mutex exactly between the caller's clock reading 1
+    and the following attempt: states (clock ticks, held?), every interference ticks the clock, interference 4
+    (= between reading 1 and attempt 2) releases.  With the deadline at tick 10 the call succeeds at attempt 2; with
+    the deadline at tick 3 reading 1 (tick 4) is past it and the call times out without that attempt. *)
+Example C20_environment_example :
+  let free := fun e : nat * bool => negb (snd e) in
+  let clock := fun e : nat * bool => (1, Z.of_nat (fst e)) in
+  let interf := fun (n : nat) (e : nat * bool) => (S (fst e), if Nat.eqb n 4 then false else snd e) in
+  env_timed _ free clock interf ETIMEDOUT 10 (0%nat, true) (1, 10) = Ret 0 2 1 /\
+  env_timed _ free clock interf ETIMEDOUT 10 (0%nat, true) (1, 3) = Ret ETIMEDOUT 2 1 /\
+  snd (timed_ev (clk_env _ clock interf (0%nat, true)) (att_env _ free interf (0%nat, true)) ETIMEDOUT 10 (1, 10)) =
+    [PAttempt 0; PRead 0; PAttempt 1; PYield; PRead 1; PAttempt 2].
+Proof. vm_compute. repeat split; reflexivity. Qed.
+
+Example C20_sleep_actions_example :
+  let clk := clk_of [(5, 999999999); (6, 100); (6, 499999999); (6, 500000000)] in
+  snd (nanosleep_ev clk 10 (0, 500000000)) = [PRead 0; PRead 1; PYield; PRead 2; PYield; PRead 3].
+Proof. vm_compute. reflexivity. Qed.
+
+(** a machine state that satisfies the hypotheses of [C20_sleeper_gives_way]: one worker running thread 1 (the sleeper)
+    with threads 2 and 3 in its run queue; after the polling iteration 3 runs and the queue is [1; 2] *)
+Example C20_gives_way_example :
+  let s := {| cur := [Run 1]; hand := [None]; dq := [[2; 3]%nat]; stat := [Live; Live; Live; Live] |} in
+  Inv s /\ nth_error (cur s) 0 = Some (Run 1) /\ nth_error (hand s) 0 = Some None /\ nth_error (dq s) 0 = Some ([2] ++ [3])%nat /\
+  runo s (poll_moves 0 [PRead 1; PYield]) =
+    Some {| cur := [Run 3]; hand := [None]; dq := [[1; 2]%nat]; stat := [Live; Live; Live; Live] |}.
+Proof.
+  split; [|vm_compute; repeat split; reflexivity].
+  intros t. do 4 (destruct t as [|t]; [vm_compute; split; [repeat constructor | discriminate]|]).
+  vm_compute. split; [repeat constructor | reflexivity].
+Qed.
